@@ -8,11 +8,11 @@ package agreement
 // partitions, crashes + restores, stalled persistence, a Byzantine minority signing with its real keys) of PRNG-chosen
 // length, then the decision line
 //
-//	sync mode=<vt|ls|nd> delta=<ms> byz=<0|1> target=<round>
+//	sync mode=<vt|ls|nd> delta=<ms> byz=<0|1>
 //
 // (the SYNCHRONY POINT: partitions heal, stalled nodes are released, nothing is dropped any more), then the synchronous
 // phase until every honest node has committed round `target` = the first round no honest ledger holds at the synchrony
-// point, or the step budget is exhausted.  Two synchronous schedulers:
+// point, or the step budget is exhausted.  Synchronous schedulers (re-broadcasts are delivered again, see forgetDelivered):
 //
 //	ls   lock-step: every fresh message is delivered (random order) before any timer fires; when nothing is deliverable the step
 //	     timer of a node that is furthest behind in (round, period, step) fires.  No fast-recovery timeouts.
@@ -34,7 +34,7 @@ package agreement
 //
 //	SYNC at=<decision index> mode delta byz target n honest=<bits>
 //	SYNCNODE node gen round period step next=<ledger.NextRound> dl=<ns> dltype fastdl=<ns>       one per honest node at the synchrony point
-//	DL node gen round period step nap dl=<ns> dltype fastdl=<ns> vt=<ns>                       after the synchrony point: whenever a node's player triple or deadline changed
+//	DL node gen round period step dl=<ns> dltype fastdl=<ns> vt=<ns>                           after the synchrony point: whenever a node's player triple or deadline changed
 //	FIRE node kind=<t|f> round period step vt=<ns>                                              a timer fired in the synchronous phase
 //	SYNCEND decisions=<n in the synchronous phase> done=<0|1> vt=<ns>
 //	PIPELINE node gen round period step fresh freshperiod freshstep val what event     monitor ACTED-ON-FRESHEST (see c05AfterHandle), whole run
@@ -45,7 +45,7 @@ package agreement
 // replay executes the recorded decisions and then keeps running the synchronous scheduler until the target is committed or the
 // budget is exhausted.
 //
-// Environment (besides NetDrive's): VERIF_C05_SCHEDULES, VERIF_C05_FROM, VERIF_C05_MODE (force vt|nd), VERIF_C05_PREFIX (force the
+// Environment (besides NetDrive's): VERIF_C05_SCHEDULES, VERIF_C05_FROM, VERIF_C05_MODE (force vt|ls|nd), VERIF_C05_NOSCEN=1 (skip the two directed scenarios 9000/9001), VERIF_C05_PREFIX (force the
 // prefix length), VERIF_C05_BYZ (force 0|1 after the synchrony point), VERIF_C05_SYNCSTEPS (budget of the synchronous phase).
 //
 // TestVerifC05Player (bottom of the file) ties the single-node timeout transitions on one real player + router.
